@@ -195,3 +195,77 @@ Proof.
   - exists true. cbn. discriminate.
   - eexists. split; vm_compute; reflexivity.
 Qed.
+
+(* ==== open: C12-HASH-TOOLOPTIONS-ORDER — tool options are compared order blind but written and
+   encoded in insertion order: equal models, different keys ==== *)
+Definition est_tool (tool : list (pkey * pyv)) : step strG :=
+  StEst strG (mkEst strG "FOCE" true None false None false None None None None [] [] (DStrs strG []) false
+                    (mkCommon None None None tool)).
+Definition M_tool (tool : list (pkey * pyv)) : model strG := model_of [] [est_tool tool] no_di None.
+Definition tool_ab : list (pkey * pyv) := [(KStr "NITER", PInt 5%Z); (KStr "ISAMPLE", PInt 20%Z)].
+Definition tool_ba : list (pkey * pyv) := [(KStr "ISAMPLE", PInt 20%Z); (KStr "NITER", PInt 5%Z)].
+Theorem hash_tooloptions_order_refuted :
+  model_eq strG (M_tool tool_ab) (M_tool tool_ba) = true /\
+  tool_order_same (OModel (M_tool tool_ab)) (OModel (M_tool tool_ba)) = false /\
+  forall (dumps : pyv -> string) (digest : Type) (H : string -> digest) (ds : string),
+    let d := model_encode strG (blank strG (M_tool tool_ab)) in let d' := model_encode strG (blank strG (M_tool tool_ba)) in
+    dumps_sep dumps d d' -> H_sep H (ds ++ dumps d) (ds ++ dumps d') ->
+    key strG dumps digest H ds (M_tool tool_ab) <> key strG dumps digest H ds (M_tool tool_ba).
+Proof.
+  split; [vm_compute; reflexivity|]. split; [vm_compute; reflexivity|].
+  intros dumps digest H ds d d' DS HS. apply key_separates_model; try assumption.
+  apply pyv_same_false. vm_compute. reflexivity.
+Qed.
+
+(* ==== open: C12-DATASET-INDEX-REPR — the index reaches the dataset hash only through repr(df.index):
+   labels that repr() elides (more than 100) do not count, and a RangeIndex differs from the same
+   labels held as a plain Index ==== *)
+Definition labels_upto (n : nat) : list cell := map (fun i => CInt (Z.of_nat i)) (seq 0 n).
+Definition frame_idx (i : index) (n : nat) : frame :=
+  mkFrame ["A"] ["float64"] i (map (fun i => [CFloat (Z.of_nat i)]) (seq 0 n)).
+Definition labels_101_other : list cell := firstn 50 (labels_upto 101) ++ [CInt 100000%Z] ++ skipn 51 (labels_upto 101).
+Definition frame_l101 : frame := frame_idx (ILabels (labels_upto 101) "int64" None) 101.
+Definition frame_l101' : frame := frame_idx (ILabels labels_101_other "int64" None) 101.
+(* different frames (another label in the middle of the index), same bytes for EVERY engine, hence same key *)
+Theorem dataset_index_elided_refuted :
+  frame_equals frame_l101 frame_l101' = false /\ index_elided frame_l101 = true /\
+  forall rowhash repr_names repr_index repr_dtypes,
+    ds_bytes rowhash repr_names repr_index repr_dtypes frame_l101 = ds_bytes rowhash repr_names repr_index repr_dtypes frame_l101'.
+Proof.
+  split; [vm_compute; reflexivity|]. split; [vm_compute; reflexivity|].
+  intros. apply ds_bytes_same_input. vm_compute. reflexivity.
+Qed.
+(* equal frames (RangeIndex(0,3,1) vs Index([0,1,2])), different bytes for every engine that shows the index *)
+Definition frame_range3 : frame := frame_idx (IRange 0 3 1) 3.
+Definition frame_labels3 : frame := frame_idx (ILabels (labels_upto 3) "int64" None) 3.
+Theorem dataset_index_kind_refuted :
+  frame_equals frame_range3 frame_labels3 = true /\ index_kind_same frame_range3 frame_labels3 = false /\
+  forall rowhash repr_names repr_index repr_dtypes,
+    (forall r, String.length (rowhash r) = 8%nat) -> rows_sep rowhash (f_rows frame_range3) (f_rows frame_labels3) ->
+    decodable repr_names -> decodable repr_index -> (forall a b, repr_dtypes a = repr_dtypes b -> a = b) ->
+    ds_bytes rowhash repr_names repr_index repr_dtypes frame_range3 <> ds_bytes rowhash repr_names repr_index repr_dtypes frame_labels3.
+Proof.
+  split; [vm_compute; reflexivity|]. split; [vm_compute; reflexivity|].
+  intros rh rn ri rd W I N X D E.
+  pose proof (ds_bytes_read_back rh rn ri rd W N X D frame_range3 frame_labels3 I eq_refl E) as Q.
+  vm_compute in Q. discriminate.
+Qed.
+
+(* ==== Results JSON: the attribute kinds read_results does not give back ==== *)
+Definition res_of (f : RF) : results jtbl jtbl := Res "pharmpy.workflows.results" "ModelfitResults" [("__version__", FPl (PStr "1.2.0")); ("x", f)].
+(* open: C12-RESULTS-PATH-READ — a Path attribute is written as {'path': ..., '__class__': 'PosixPath'}
+   and the decoder calls Path() on that dictionary: read_results raises TypeError *)
+Theorem results_path_refuted :
+  exists r, results_supported jtbl jtbl r = false /\ has_path r = true /\
+            (exists p, jenc r = Some p /\ jdec (normalise p) = None).
+Proof. exists (res_of (FPa "/tmp/run1")). split; [reflexivity|]. split; [reflexivity|]. eexists. split; vm_compute; reflexivity. Qed.
+(* by design (not findings): a Model attribute comes back as None, a tuple as a list, an int key as
+   text; a set / ndarray / numpy scalar makes to_json raise *)
+Theorem results_unsupported_refuted :
+  (exists p r', jenc (res_of FMo) = Some p /\ jdec (normalise p) = Some r' /\ results_same r' (res_of FMo) = false) /\
+  (exists p r', jenc (res_of (FPl (PTuple [PInt 1%Z]))) = Some p /\ jdec (normalise p) = Some r' /\
+                results_same r' (res_of (FPl (PTuple [PInt 1%Z]))) = false) /\
+  (exists p r', jenc (res_of (FPl (PDict [(KInt 1%Z, PNone)]))) = Some p /\ jdec (normalise p) = Some r' /\
+                results_same r' (res_of (FPl (PDict [(KInt 1%Z, PNone)]))) = false) /\
+  jenc (res_of FOt) = None.
+Proof. repeat split; try (eexists; eexists; repeat split; vm_compute; reflexivity). Qed.
